@@ -41,6 +41,8 @@ struct Mon {
     findings: Vec<Finding>,
     counters: BTreeMap<String, u64>,
     sets: BTreeMap<String, BTreeSet<String>>,
+    /// C08: every nostr group id the mirror check has seen in force, per (client, group)
+    seen_nostr_ids: BTreeMap<(usize, usize), BTreeSet<[u8; 32]>>,
 }
 impl Mon {
     fn count(&mut self, k: &str) {
@@ -67,6 +69,9 @@ impl Mon {
 fn check_mirror(w: &World, m: usize, g: usize, mon: &mut Mon, ctx: &str) {
     let gid = w.gid(g);
     let c = &w.clients[m];
+    let earlier_ids: Vec<[u8; 32]> = mon.seen_nostr_ids.get(&(m, g)).map(|s| s.iter().copied().collect()).unwrap_or_default();
+    let mut in_force: Option<[u8; 32]> = None;
+    let mut stale_probes = 0u64;
     let r: Option<(Vec<String>, u64)> = with_mdk!(c.mdk, x => {
         let rec = x.get_group(&gid).ok().flatten();
         match rec {
@@ -96,6 +101,18 @@ fn check_mirror(w: &World, m: usize, g: usize, mon: &mut Mon, ctx: &str) {
                                     Ok(Some(found)) if found.mls_group_id == gid => {}
                                     _ => bad.push("routing-by-id-in-force".into()),
                                 }
+                                // ... and an id that was in force earlier (rotated away, or rolled back
+                                // with its commit) no longer resolves to this group
+                                in_force = Some(gd.nostr_group_id);
+                                for old in earlier_ids.iter().filter(|o| **o != gd.nostr_group_id) {
+                                    stale_probes += 1;
+                                    if let Ok(Some(found)) = x.provider.storage().find_group_by_nostr_group_id(old) {
+                                        if found.mls_group_id == gid {
+                                            bad.push("routing-by-id-not-in-force".into());
+                                            break;
+                                        }
+                                    }
+                                }
                             }
                         }
                         Some((bad, grp.epoch().as_u64()))
@@ -105,6 +122,10 @@ fn check_mirror(w: &World, m: usize, g: usize, mon: &mut Mon, ctx: &str) {
             _ => None,
         }
     });
+    if let Some(id) = in_force {
+        mon.seen_nostr_ids.entry((m, g)).or_default().insert(id);
+    }
+    mon.add("c08_stale_id_probes", stale_probes);
     if let Some((bad, epoch)) = r {
         mon.count("c08_mirror_checks");
         if !bad.is_empty() {
@@ -360,7 +381,7 @@ pub struct HistCfg {
 
 pub fn run_history(rng: &mut Rng, cfg: &HistCfg, dir: &Path, tag: &str) -> HistResult {
     let sim = &cfg.sim;
-    let mut mon = Mon { findings: vec![], counters: BTreeMap::new(), sets: BTreeMap::new() };
+    let mut mon = Mon { findings: vec![], counters: BTreeMap::new(), sets: BTreeMap::new(), seen_nostr_ids: BTreeMap::new() };
     let mut w = World::empty(dir.to_path_buf(), tag.to_string());
     let n = rng.range(sim.members.0, sim.members.1);
     let mut mdk_cfg = sim.mdk_cfg.clone();
@@ -736,7 +757,9 @@ fn pick_commit_kind(rng: &mut Rng, sim: &SimCfg, admin: bool) -> CommitKind {
     }
     let mut kinds = vec![CommitKind::SelfUpdate, CommitKind::SelfUpdate, CommitKind::Rename, CommitKind::Rename, CommitKind::Describe, CommitKind::Relays, CommitKind::Image];
     if sim.allow_rotate_nid {
-        kinds.push(CommitKind::RotateNid);
+        for _ in 0..=sim.rotate_boost {
+            kinds.push(CommitKind::RotateNid);
+        }
     }
     if sim.allow_admin_change {
         kinds.push(CommitKind::Admins);
